@@ -365,6 +365,9 @@ class NoteContainer(object):
 
     def __eq__(self, other):
         """Enable the '==' operator for NoteContainer instances."""
+        if other is None:
+            # a rest
+            return False
         if len(self) != len(other):
             return False
         for x in self:
